@@ -102,13 +102,12 @@ def DragOK (t : Tree) : Prop := ∀ d, t.root.dragSource = some d → Alive t d
 /-- Same store up to reference counts and the damage bookkeeping of the root. -/
 structure Shape (t t' : Tree) : Prop where
   changes : t'.root.changes = t.root.changes
-  drag : t'.root.dragSource = t.root.dragSource
   win : ∀ (i : WinTree.Id), (t'.wins[i]?).map noRc = (t.wins[i]?).map noRc
 
-theorem Shape.refl (t : Tree) : Shape t t := ⟨rfl, rfl, fun _ => rfl⟩
-theorem Shape.symm {t t' : Tree} (h : Shape t t') : Shape t' t := ⟨h.changes.symm, h.drag.symm, fun i => (h.win i).symm⟩
+theorem Shape.refl (t : Tree) : Shape t t := ⟨rfl, fun _ => rfl⟩
+theorem Shape.symm {t t' : Tree} (h : Shape t t') : Shape t' t := ⟨h.changes.symm, fun i => (h.win i).symm⟩
 theorem Shape.trans {a b c : Tree} (h1 : Shape a b) (h2 : Shape b c) : Shape a c :=
-  ⟨h2.changes.trans h1.changes, h2.drag.trans h1.drag, fun i => (h2.win i).trans (h1.win i)⟩
+  ⟨h2.changes.trans h1.changes, fun i => (h2.win i).trans (h1.win i)⟩
 
 theorem Shape.some {t t' : Tree} (h : Shape t t') {i : WinTree.Id} {w : Win} (hw : t.wins[i]? = some w) :
     ∃ w', t'.wins[i]? = some w' ∧ noRc w' = noRc w := by
@@ -166,9 +165,10 @@ theorem TInv.shape {t t' : Tree} (hi : TInv t) (h : Shape t t') : TInv t' := by
     rw [← e1]; exact this
   · rw [h.changes]; exact hi.queue
 
-theorem DragOK.shape {t t' : Tree} (hd : DragOK t) (h : Shape t t') : DragOK t' := by
+theorem DragOK.shape {t t' : Tree} (hd : DragOK t) (h : Shape t t') (hs : t'.root.dragSource = t.root.dragSource) :
+    DragOK t' := by
   intro d hdd
-  rw [h.drag] at hdd
+  rw [hs] at hdd
   exact h.alive (hd d hdd)
 
 /-- The store moved on without touching reference counts or liveness and without giving a childless window
@@ -208,13 +208,13 @@ theorem Evolve.set {t : Tree} {i : WinTree.Id} {w w' : Win} (hw : t.wins[i]? = s
 
 /-- `TInv` looks at the windows, the restack queue and the drag source only. -/
 theorem TInv.root_frame {t t' : Tree} (hi : TInv t) (hw : t'.wins = t.wins) (hc : t'.root.changes = t.root.changes)
-    (hd : t'.root.dragSource = t.root.dragSource) : TInv t' := by
+    (_hd : t'.root.dragSource = t.root.dragSource) : TInv t' := by
   apply hi.shape
-  exact ⟨hc, hd, fun i => by rw [hw]⟩
+  exact ⟨hc, fun i => by rw [hw]⟩
 
 theorem DragOK.root_frame {t t' : Tree} (hi : DragOK t) (hw : t'.wins = t.wins) (hc : t'.root.changes = t.root.changes)
     (hd : t'.root.dragSource = t.root.dragSource) : DragOK t' :=
-  hi.shape ⟨hc, hd, fun i => by rw [hw]⟩
+  hi.shape ⟨hc, fun i => by rw [hw]⟩ hd
 
 theorem DragOK.evolve {t t' : Tree} (hd : DragOK t) (h : Evolve t t') (hs : t'.root.dragSource = t.root.dragSource) :
     DragOK t' := by
@@ -652,6 +652,209 @@ theorem close_safe {t : Tree} (hi : TInv t) (hd : DragOK t) (f : Nat) {win : Win
     refine ⟨(s1.trans s2).trans (set_step s2.inv s2.drag hw2 W2f rfl rfl W2f rfl
       (fun f h => s2.inv.focus win f W2 hw2 W2f h) (fun _ => W2p)), ?_⟩
     exact ⟨_, wins_set_self hw2, W2f, W2p, W2c, W2r⟩
+
+/-! ### unref and destroy -/
+
+theorem shape_set_rc {t : Tree} {i : WinTree.Id} {w : Win} (hw : t.wins[i]? = some w) (k : Int) :
+    Shape t (WinTree.set t i { w with refcount := k }) := by
+  refine ⟨rfl, ?_⟩
+  intro j
+  by_cases hij : i = j
+  · subst hij; rw [wins_set_self hw, hw]; rfl
+  · rw [wins_set_ne hij]
+
+/-- Freeing a detached, childless window other than the root. -/
+theorem TInv.free {t : Tree} (hi : TInv t) {c : WinTree.Id} {w w' : Win} (hw : t.wins[c]? = some w) (hf : w.freed = false)
+    (hp : w.parent = none) (hch : w.children = []) (hc0 : c ≠ 0) (hf' : w'.freed = true) :
+    TInv (WinTree.set t c w') := by
+  have other : ∀ (j : WinTree.Id) (x : Win), (WinTree.set t c w').wins[j]? = some x → x.freed = false →
+      j ≠ c ∧ t.wins[j]? = some x := by
+    intro j x hx hxf
+    rcases wins_set_cases hw j x hx with ⟨rfl, rfl⟩ | ⟨h1, h2⟩
+    · rw [hf'] at hxf; cases hxf
+    · exact ⟨h1, h2⟩
+  have keep : ∀ (j : WinTree.Id) (x : Win), j ≠ c → t.wins[j]? = some x → (WinTree.set t c w').wins[j]? = some x :=
+    fun j x hj hx => by rw [wins_set_ne (fun h => hj h.symm)]; exact hx
+  constructor
+  · obtain ⟨w0, hw0, hf0, hp0⟩ := hi.root
+    exact ⟨w0, keep 0 w0 (fun h => hc0 h.symm) hw0, hf0, hp0⟩
+  · intro i k x hx hxf hk
+    obtain ⟨_, hx0⟩ := other i x hx hxf
+    obtain ⟨cw, hcw, hcf, hcp⟩ := hi.child i k x hx0 hxf hk
+    have hkc : k ≠ c := by
+      intro h; subst h; rw [hw] at hcw; cases hcw; rw [hp] at hcp; cases hcp
+    exact ⟨cw, keep k cw hkc hcw, hcf, hcp⟩
+  · intro k q x hx hxf hq
+    obtain ⟨_, hx0⟩ := other k x hx hxf
+    obtain ⟨qw, hqw, hqf, hqm⟩ := hi.parent k q x hx0 hxf hq
+    have hqc : q ≠ c := by
+      intro h; subst h; rw [hw] at hqw; cases hqw; rw [hch] at hqm; cases hqm
+    exact ⟨qw, keep q qw hqc hqw, hqf, hqm⟩
+  · intro i f x hx hxf hfc
+    exact hi.focus i f x (other i x hx hxf).2 hxf hfc
+  · intro i x hx hxf
+    exact hi.nodup i x (other i x hx hxf).2 hxf
+  · intro i x hx hxf
+    exact hi.noself i x (other i x hx hxf).2 hxf
+  · intro i x hx hxf hcl
+    exact hi.closed i x (other i x hx hxf).2 hxf hcl
+  · exact hi.queue
+
+theorem normalizeDrag_ok (t : Tree) : DragOK (normalizeDrag t) ∧ (normalizeDrag t).wins = t.wins ∧
+    (normalizeDrag t).root.changes = t.root.changes := by
+  unfold normalizeDrag
+  cases hd : t.root.dragSource with
+  | none => exact ⟨fun d h => (by rw [hd] at h; cases h), rfl, rfl⟩
+  | some d =>
+    simp only
+    by_cases hc : (isAlive t d && isWithin t (treeFuel t) 0 d) = true
+    · rw [if_pos hc]
+      refine ⟨fun d' h => ?_, rfl, rfl⟩
+      rw [hd] at h; cases h
+      simp only [Bool.and_eq_true] at hc
+      have := hc.1
+      unfold isAlive at this
+      cases hw : t.wins[d]? with
+      | none => simp [hw] at this
+      | some w => simp only [hw] at this; exact ⟨w, hw, by simpa using this⟩
+    · rw [if_neg hc]
+      exact ⟨fun d' h => (by simp at h), rfl, rfl⟩
+
+theorem TInv.normalizeDrag {t : Tree} (hi : TInv t) : TInv (normalizeDrag t) := by
+  obtain ⟨_, hw, hc⟩ := normalizeDrag_ok t
+  exact hi.shape ⟨hc, fun i => by rw [hw]⟩
+
+/-- Every window but `c` kept its liveness, its count and the (non-)emptiness of its children. -/
+structure KeepOthers (c : WinTree.Id) (t t' : Tree) : Prop where
+  size : t'.wins.size = t.wins.size
+  win : ∀ (j : WinTree.Id) (x : Win), j ≠ c → t.wins[j]? = some x →
+    ∃ x', t'.wins[j]? = some x' ∧ x'.freed = x.freed ∧ x'.refcount = x.refcount ∧ (x.children = [] → x'.children = [])
+
+theorem Evolve.keepOthers {t t' : Tree} (h : Evolve t t') (c : WinTree.Id) : KeepOthers c t t' :=
+  ⟨h.size, fun j x _ hx => h.win j x hx⟩
+
+theorem KeepOthers.trans {c : WinTree.Id} {a b d : Tree} (h1 : KeepOthers c a b) (h2 : KeepOthers c b d) : KeepOthers c a d := by
+  refine ⟨by rw [h2.size, h1.size], ?_⟩
+  intro j x hj hx
+  obtain ⟨x1, hx1, f1, r1, c1⟩ := h1.win j x hj hx
+  obtain ⟨x2, hx2, f2, r2, c2⟩ := h2.win j x1 hj hx1
+  exact ⟨x2, hx2, f2.trans f1, r2.trans r1, fun h => c2 (c1 h)⟩
+
+theorem KeepOthers.set (t : Tree) (c : WinTree.Id) (w' : Win) : KeepOthers c t (WinTree.set t c w') :=
+  ⟨by simp, fun j x hj hx => ⟨x, by rw [wins_set_ne (fun h => hj h.symm)]; exact hx, rfl, rfl, id⟩⟩
+
+theorem KeepOthers.of_wins {c : WinTree.Id} {t t' : Tree} (h : t'.wins = t.wins) : KeepOthers c t t' :=
+  (Evolve.of_wins h).keepOthers c
+
+/-- The shape the elaborator gives `let t ← if c then x else pure a; f t`. -/
+theorem ite_bind_pure {α β : Type} {c : Prop} [Decidable c] (x : Res α) (a : α) (f : α → Res β) :
+    (if c then x >>= f else f a) = ((if c then x else Res.ok a) >>= f) := by
+  split <;> rfl
+
+theorem SafeR.ite {α : Type} {c : Prop} [Decidable c] {x y : Res α} {Q : α → Prop} (h1 : c → SafeR x Q)
+    (h2 : ¬ c → SafeR y Q) : SafeR (if c then x else y) Q := by
+  split
+  · exact h1 ‹_›
+  · exact h2 ‹_›
+
+/-- `tickit_window_destroy` of a childless window other than the root, on a consistent store. -/
+theorem destroy_safe {t : Tree} (hi : TInv t) (m : Nat) {c : WinTree.Id} {w : Win} (hw : t.wins[c]? = some w)
+    (hf : w.freed = false) (hch : w.children = []) (hc0 : c ≠ 0) (hd : DragOK t) :
+    SafeR (WinTree.destroy (fun t _ => pure t) (m + 1) t c) (fun t' => TInv t' ∧ KeepOthers c t t' ∧
+      ∃ w', t'.wins[c]? = some w' ∧ w'.freed = true) := by
+  rw [WinTree.destroy]
+  simp only [res_pure, res_bind_ok]
+  apply SafeR.bind (safeR_get ⟨w, hw, hf⟩)
+  intro wa ⟨hwa, _⟩
+  rw [hw] at hwa; cases hwa
+  simp only [hch, WinTree.destroyChildren, res_pure, res_bind_ok]
+  apply SafeR.bind (safeR_get ⟨w, hw, hf⟩)
+  intro wb ⟨hwb, _⟩
+  rw [hw] at hwb; cases hwb
+  -- purge
+  rw [ite_bind_pure]
+  apply SafeR.bind (Q := fun t1 => StepOK t t1 ∧ t1.wins = t.wins)
+  · exact SafeR.ite (fun _ => purge_safe hi hd _ ⟨w, hw, hf⟩) (fun _ => ⟨StepOK.refl hi hd, rfl⟩)
+  intro t1 ⟨s1, e1⟩
+  have hw1 : t1.wins[c]? = some w := by rw [e1]; exact hw
+  apply SafeR.bind (safeR_get ⟨w, hw1, hf⟩)
+  intro wc ⟨hwc, _⟩
+  rw [hw1] at hwc; cases hwc
+  -- close
+  rw [ite_bind_pure]
+  apply SafeR.bind (Q := fun t2 => StepOK t t2 ∧ Detached t2 c w)
+  · refine SafeR.ite (fun _ => ?_) (fun hcl => ?_)
+    · exact (close_safe s1.inv s1.drag _ hw1 hf).mono fun t2 ⟨s2, d2⟩ => ⟨s1.trans s2, d2⟩
+    · have hcl' : w.isClosed = true := by simpa using hcl
+      exact ⟨s1, w, hw1, hf, hi.closed c w hw hf hcl', rfl, rfl⟩
+  intro t2 ⟨s2, w2, hw2, hf2, hp2, hc2, _⟩
+  simp only [get_eq_ok.2 ⟨hw2, hf2⟩, res_bind_ok]
+  -- root cleanup (nothing is queued) and free
+  have fin : ∀ t3 : Tree, t3.wins = t2.wins → t3.root.changes = t2.root.changes →
+      TInv (WinTree.set t3 c { w2 with freed := true }) ∧ KeepOthers c t (WinTree.set t3 c { w2 with freed := true }) ∧
+      ∃ w', (WinTree.set t3 c { w2 with freed := true }).wins[c]? = some w' ∧ w'.freed = true := by
+    intro t3 e3 q3
+    have hi3 : TInv t3 := s2.inv.shape ⟨q3, fun i => by rw [e3]⟩
+    have hw3 : t3.wins[c]? = some w2 := by rw [e3]; exact hw2
+    refine ⟨hi3.free hw3 hf2 hp2 (by rw [hc2, hch]) hc0 rfl, ?_, _, wins_set_self hw3, rfl⟩
+    exact ((s2.ev.keepOthers c).trans (KeepOthers.of_wins e3)).trans (KeepOthers.set t3 c _)
+  by_cases hr : w2.isRoot = true
+  · rw [if_pos hr]
+    exact SafeR.ok (fin _ rfl (by simp [s2.inv.queue]))
+  · rw [if_neg hr]
+    exact SafeR.ok (fin t2 rfl rfl)
+
+/-- `tickit_window_unref` as the routing and the application use it: the count is at least one; the window goes
+    only when that was the last reference, and then it is childless and not the root. -/
+theorem unref_core {st : St} (hi : TInv st.tree) (hd : DragOK st.tree) {c : WinTree.Id} {w : Win}
+    (hw : st.tree.wins[c]? = some w) (hf : w.freed = false) (h1 : 1 ≤ w.refcount)
+    (hlast : w.refcount = 1 → w.children = [] ∧ c ≠ 0) :
+    SafeR (unrefLogged st c) (fun st' => st'.binds = st.binds ∧ st'.owned = st.owned ∧ TInv st'.tree ∧
+      DragOK st'.tree ∧ KeepOthers c st.tree st'.tree ∧
+      ∃ w', st'.tree.wins[c]? = some w' ∧
+        ((w.refcount = 1 ∧ w'.freed = true) ∨
+         (2 ≤ w.refcount ∧ w'.freed = false ∧ w'.refcount = w.refcount - 1 ∧ w'.children = w.children))) := by
+  have hg : WinTree.get st.tree c = Res.ok w := get_eq_ok.2 ⟨hw, hf⟩
+  by_cases h2 : 2 ≤ w.refcount
+  · rw [unrefLogged_nd hg h2]
+    have sh := shape_set_rc hw (w.refcount - 1)
+    refine ⟨rfl, rfl, hi.shape sh, hd.shape sh rfl, KeepOthers.set _ _ _, _, wins_set_self hw, Or.inr ⟨h2, hf, rfl, rfl⟩⟩
+  · have hr1 : w.refcount = 1 := by omega
+    obtain ⟨hch, hc0⟩ := hlast hr1
+    unfold unrefLogged
+    simp only [hg, res_bind_ok]
+    have hfuel : destroyFuel st.tree = (3 * st.tree.wins.size + 4) + 1 + 1 := rfl
+    rw [hfuel, WinTree.unref]
+    simp only [hg, res_bind_ok]
+    have n1 : ¬ (w.refcount < 1) := by omega
+    have z : w.refcount - 1 = 0 := by omega
+    simp only [n1, if_false, z, if_true]
+    have sh := shape_set_rc hw (0 : Int)
+    have hw0 : (WinTree.set st.tree c { w with refcount := 0 }).wins[c]? = some { w with refcount := 0 } := wins_set_self hw
+    have hz : w.refcount - 1 = 0 := z
+    rw [show (w.refcount - 1 : Int) = 0 from hz] at *
+    apply SafeR.bind (destroy_safe (hi.shape sh) _ hw0 hf hch hc0 (hd.shape sh rfl))
+    intro t' ⟨hi', ko, w', hw', hf'⟩
+    simp only [hr1, if_true]
+    obtain ⟨dok, ew, ec⟩ := normalizeDrag_ok t'
+    have logfold : ∀ (gone : List WinTree.Id) (s0 : St),
+        (gone.foldl (fun st i => st.say (.destroyed i)) s0).tree = s0.tree ∧
+        (gone.foldl (fun st i => st.say (.destroyed i)) s0).binds = s0.binds ∧
+        (gone.foldl (fun st i => st.say (.destroyed i)) s0).owned = s0.owned := by
+      intro gone
+      induction gone with
+      | nil => intro s0; exact ⟨rfl, rfl, rfl⟩
+      | cons g rest ih => intro s0; exact ih _
+    obtain ⟨lt, lb, lo⟩ := logfold
+      ((preorder st.tree (treeFuel st.tree) c).filter fun i => isAlive st.tree i && !isAlive (normalizeDrag t') i)
+      { st with tree := normalizeDrag t' }
+    refine ⟨lb, lo, ?_, ?_, ?_, ?_⟩
+    · rw [lt]; exact hi'.normalizeDrag
+    · rw [lt]; exact dok
+    · rw [lt]
+      exact ((KeepOthers.set st.tree c _).trans ko).trans (KeepOthers.of_wins ew)
+    · rw [lt]
+      exact ⟨w', by rw [ew]; exact hw', Or.inl ⟨by first | trivial | exact hr1 | omega, hf'⟩⟩
 
 end WinInput
 end Tickit
